@@ -39,7 +39,7 @@ with open(os.path.join(lib.LEAN, "SpecVerif/PinnedLang.lean"), "w") as f:
         f.write("def %s : %s :=\n  %s\n" % (n, t, v))
     f.write("\nend SpecVerif.PinnedLang\n")
 with open(os.path.join(lib.LEAN, "SpecVerif/TiesLang.lean"), "w") as f:
-    f.write("/-\nTies for the schema parser facts (see PinnedLang.lean), and their links to the Lean model.\n-/\nimport SpecVerif.PinnedLang\nimport SpecVerif.Generated.Facts\nimport SpecVerif.Lang.Syntax\nnamespace SpecVerif.TiesLang\nset_option maxRecDepth 100000\n\n")
+    f.write("/-\nTies for the schema parser facts (see PinnedLang.lean), and their links to the Lean model.\n-/\nimport SpecVerif.PinnedLang\nimport SpecVerif.PinnedMpx\nimport SpecVerif.Generated.Facts\nimport SpecVerif.Lang.Syntax\nnamespace SpecVerif.TiesLang\nset_option maxRecDepth 100000\n\n")
     for n in lang:
         f.write("theorem %s_tie : Generated.%s = PinnedLang.%s := by decide\n" % (n, n, n))
     f.write("""
@@ -57,6 +57,43 @@ open SpecVerif.Lang in
 /-- the model's contextual keywords (`Kw.isName`) are the alternatives of the `keyword` nonterminal -/
 theorem name_keywords_model : ∀ k ∈ Kw.all,
     k.isName = decide (k.nameRule ∈ PinnedLang.grammarRules) := by decide
+""")
+    f.write("""
+/-- `a` is immediately followed by `b` somewhere in `l` -/
+def adjacent (a b : String) : List String → Bool
+  | x :: y :: r => (x == a && y == b) || adjacent a b (y :: r)
+  | _ => false
+
+def scalarKinds : List String :=
+  ["Bool", "Byte", "Int16", "Int32", "Int64", "Uint16", "Uint32", "Uint64", "Bin64", "Bin128", "Bin256",
+   "Float32", "Float64", "Bytes", "String"]
+
+def writeCase : String → String × String
+  | "Bool" => ("case model.KindBool", "return \\"spec.EncodeBool\\"") | "Byte" => ("case model.KindByte", "return \\"spec.EncodeByte\\"")
+  | "Int16" => ("case model.KindInt16", "return \\"spec.EncodeInt16\\"") | "Int32" => ("case model.KindInt32", "return \\"spec.EncodeInt32\\"")
+  | "Int64" => ("case model.KindInt64", "return \\"spec.EncodeInt64\\"") | "Uint16" => ("case model.KindUint16", "return \\"spec.EncodeUint16\\"")
+  | "Uint32" => ("case model.KindUint32", "return \\"spec.EncodeUint32\\"") | "Uint64" => ("case model.KindUint64", "return \\"spec.EncodeUint64\\"")
+  | "Bin64" => ("case model.KindBin64", "return \\"spec.EncodeBin64\\"") | "Bin128" => ("case model.KindBin128", "return \\"spec.EncodeBin128\\"")
+  | "Bin256" => ("case model.KindBin256", "return \\"spec.EncodeBin256\\"") | "Float32" => ("case model.KindFloat32", "return \\"spec.EncodeFloat32\\"")
+  | "Float64" => ("case model.KindFloat64", "return \\"spec.EncodeFloat64\\"") | "Bytes" => ("case model.KindBytes", "return \\"spec.EncodeBytes\\"")
+  | "String" => ("case model.KindString", "return \\"spec.EncodeString\\"") | _ => ("", "")
+
+def decodeCase : String → String × String
+  | "Bool" => ("case model.KindBool", "return \\"spec.DecodeBool\\"") | "Byte" => ("case model.KindByte", "return \\"spec.DecodeByte\\"")
+  | "Int16" => ("case model.KindInt16", "return \\"spec.DecodeInt16\\"") | "Int32" => ("case model.KindInt32", "return \\"spec.DecodeInt32\\"")
+  | "Int64" => ("case model.KindInt64", "return \\"spec.DecodeInt64\\"") | "Uint16" => ("case model.KindUint16", "return \\"spec.DecodeUint16\\"")
+  | "Uint32" => ("case model.KindUint32", "return \\"spec.DecodeUint32\\"") | "Uint64" => ("case model.KindUint64", "return \\"spec.DecodeUint64\\"")
+  | "Bin64" => ("case model.KindBin64", "return \\"spec.DecodeBin64\\"") | "Bin128" => ("case model.KindBin128", "return \\"spec.DecodeBin128\\"")
+  | "Bin256" => ("case model.KindBin256", "return \\"spec.DecodeBin256\\"") | "Float32" => ("case model.KindFloat32", "return \\"spec.DecodeFloat32\\"")
+  | "Float64" => ("case model.KindFloat64", "return \\"spec.DecodeFloat64\\"") | "Bytes" => ("case model.KindBytes", "return \\"spec.DecodeBytes\\"")
+  | "String" => ("case model.KindString", "return \\"spec.DecodeString\\"") | _ => ("", "")
+
+/-- the generator pairs every scalar kind with the encoder and the decoder of that kind (C05: each
+generated accessor reads and writes the wire type declared in the schema) -/
+theorem generator_scalar_tables :
+    (scalarKinds.all fun k => adjacent (writeCase k).1 (writeCase k).2 PinnedMpx.ev_gen_typeWriteFunc) = true ∧
+    (scalarKinds.all fun k => adjacent (decodeCase k).1 (decodeCase k).2 PinnedMpx.ev_gen_typeDecodeFunc) = true := by
+  decide
 """)
     f.write("\nend SpecVerif.TiesLang\n")
 print(len(defs), "sequences pinned; lang facts pinned")
